@@ -13,20 +13,84 @@ TRUSTED_BASE = ["Lean 4 kernel", "the fingerprint hook verif_fingerprint.go (add
 ASSUMPTIONS = []
 RULE = ("the C10 histories with references and with read operations mixed in: Unpack (generic and typed), getters, Has, CountField, Child, "
         "FlattenedKeys, diff.CompareConfigs, and configs used as merge sources. Oracle: the fingerprint of every config is identical before "
-        "and after each read. The concurrent part: see kind 'concurrent' (race detector). Non-trivial: a reference or an embedded config is "
+        "and after each read. Concurrent part (kind 'concurrent', 60 / 600 configs): the C02/C08 reference graphs extended with resolver "
+        "values that parse into objects and lists and references into them; every read (getters, generic and typed Unpack, Has, "
+        "CountField, Child+Unpack, FlattenedKeys, CompareConfigs) is first performed alone, then by 4-8 goroutines at once, one of "
+        "which also uses the config as a merge source; the worker is built with -race (GORACE halt_on_error). Oracle: no race report, "
+        "every concurrent result equals the solo result, fingerprint unchanged. Non-trivial: a reference or an embedded config is "
         "read. Distinct by (operation multiset, history length).")
 
 
+NEEDS_RACE = True
+
+
+def concurrent_case(rng, tier):
+    """a config with references, splices, resolver values that parse into objects and lists, nested objects and lists;
+    every kind of read performed by several goroutines at once (race-detector build of the worker)"""
+    from . import c02, c08
+    if rng.chance(0.5):
+        while True:
+            E, names, kind = c08.graph_case(rng, tier)
+            # settings that default to each other are order dependent even for a single reader (known finding D17)
+            if kind not in ("default-cycle", "random"):
+                break
+        c = c02.to_case(rng, E, names, {}, tier)
+    else:
+        E, refs, placement = c02.build_case(rng, tier)
+        c = c02.to_case(rng, E, refs, placement, tier)
+        names = refs
+    reads = [r for r in c["reads"]]
+    nm = rng.pick(names)
+    reads += [{"r": "view"}, {"r": "keys"}, {"r": "diffself"}, {"r": "has", "name": nm, "idx": -1}, {"r": "count", "name": nm},
+              {"r": "typed", "name": nm, "ty": rng.pick(["strings", "string", "duration", "ifaces"])}, {"r": "get", "type": "String", "name": nm, "idx": -1}]
+    # resolver-provided values that parse into objects / lists
+    ropts = list(c["ropts"]) + [{"o": "Resolve", "v": [{"name": "robj", "val": "{a: 1, b: [x, y]}", "cfg": {"array": True, "object": True}},
+                                                     {"name": "rlist", "val": "u,v,w", "cfg": {"array": True, "object": False}}]}]
+    src = c["from"]
+    src = M(src["m"] + [["viaobj", S("${robj}")], ["vialist", S("${rlist}")], ["nest", M([("deep", A([S("${viaobj.a}"), S("${vialist.1}")]))])]])
+    reads += [{"r": "get", "type": "String", "name": "nest.deep", "idx": 0}, {"r": "childview", "name": "nest", "idx": -1},
+              {"r": "typed", "name": "vialist", "ty": "strings"}]
+    return {"k": "concurrent", "from": src, "opts": c["opts"], "merges": c["merges"], "ropts": ropts, "reads": reads,
+            "goroutines": 4 + rng.below(5), "rounds": 2 + rng.below(3), "_tag": "concurrent", "_nt": True,
+            "_sig": "conc|%s|%d" % (c.get("_tag", "refs"), len(reads))}
+
+
 def gen(rng, tier):
-    n = 500 if tier == "quick" else 5000
+    n = 400 if tier == "quick" else 4000
     for i in range(n):
         yield FO.history(rng, tier, refs=(i % 2 == 0), reads=True, flavour="c11")
+    crng = rng.fork("concurrent")
+    for i in range(60 if tier == "quick" else 600):
+        yield concurrent_case(crng, tier)
 
 
-oracle = FO.oracle_for("C11")
+def conc_oracle(case, impl, model):
+    if case.get("k") != "concurrent":
+        return FO.oracle_for("C11")(case, impl, model)
+    if not isinstance(impl, dict):
+        return (False, "no result")
+    if "race" in impl:
+        return (False, "data race between concurrent readers of one Config: " + impl["race"])
+    if "panic" in impl or "fatal" in impl:
+        return (False, "concurrent readers crashed: " + str(impl)[:200])
+    if "create" in impl:
+        return None
+    if impl.get("mismatches"):
+        return (False, "a reader running next to others obtained a different result: " + str(impl.get("first"))[:400])
+    if impl.get("fpSame") is False:
+        return (False, "the config's internal state changed while it was only read")
+    return (True, "")
 
 
-normalize_pair = FO.normalize_pair
+oracle = conc_oracle
+
+
+def normalize_pair(case, impl, model):
+    if case.get("k") == "concurrent":
+        if isinstance(impl, dict) and "create" in impl:
+            return None, None
+        return ({k: impl.get(k) for k in ("mismatches", "fpSame")} if isinstance(impl, dict) else impl), model
+    return FO.normalize_pair(case, impl, model)
 fix_candidate = FO.fix_candidate
 
 
